@@ -225,3 +225,44 @@ for _rule, _cls, _kw in (("multiply_embedding_layers", "EmbeddingLayer", "num_st
         exc, _ = vc.raises(lambda: vc.call(f"{SO}:{_rule}", sl1, sl2))
         vc.ensure("refuses_with_ValueError", exc == "ValueError")
     obligation(f"C04.rule.{_rule}.refuses_different_state_counts", "C04", [f"{SO}:{_rule}"])(_h)
+
+
+# ------------------------------------------------------------------------------------------------ multiply_kronecker_layers (numpy permutation)
+for _H, _conc in ((2, None), (3, None), (2, (2, 3)), (3, (2, 2))):
+    def _h(vc, _H=_H, _conc=_conc):
+        """kron(x1_0..x1_{H-1}) (x) kron(x2_0..x2_{H-1}) as ONE Kronecker layer over the pair inputs (x1_h (x) x2_h) followed by a constant
+        permutation: the pair layer's unit (i1_0,i2_0, i1_1,i2_1, ...) must land on unit ((i1_0..i1_{H-1}), (i2_0..i2_{H-1})) - first operand
+        major.  The permutation matrix is built with numpy (eye / reshape / transpose), modelled as tensor operations."""
+        from engine.tensor import MR, Tensor
+        K1, K2 = (vc.int("K1", lo=1), vc.int("K2", lo=1)) if _conc is None else _conc      # (concrete sizes: an easily refutable instance)
+        a = vc.new(f"{SL}:KroneckerLayer", K1, arity=_H)
+        b = vc.new(f"{SL}:KroneckerLayer", K2, arity=_H)
+        blk = vc.call(f"{SO}:multiply_kronecker_layers", a, b)
+        nodes = list(blk.fields["_nodes"])
+        ok = len(nodes) == 2 and nodes[0].cls.name == "KroneckerLayer" and nodes[1].cls.name == "SumLayer"
+        vc.ensure("pair_kronecker_then_sum", ok and list(blk.fields["_in_nodes"].get(nodes[1], [])) == [nodes[0]])
+        if not ok:
+            return
+        kr, sm = nodes
+        n = K1 * K2
+        for _ in range(_H - 1):
+            n = n * (K1 * K2)
+        vc.ensure("pair_layer_units_and_arity", z3.And(vc.attr(kr, "num_input_units") == K1 * K2, vc.attr(kr, "arity") == _H))
+        vc.ensure("sum_is_square_of_arity_one", z3.And(vc.attr(sm, "num_input_units") == n, vc.attr(sm, "num_output_units") == n, vc.attr(sm, "arity") == 1))
+        P = vc.attr(sm, "weight")
+        (out,) = P.fields["_outputs"]
+        vc.ensure("weight_is_a_constant", out.cls.name == "ConstantParameter" and P.fields["_in_nodes"].get(out, []) == [])
+        perm = out.fields.get("value")
+        good = isinstance(perm, Tensor) and perm.rank == 2
+        vc.ensure("constant_matrix", good)
+        if not good:
+            return
+        i1 = vc.index_consts([K1] * _H, "i")
+        i2 = vc.index_consts([K2] * _H, "j")
+        c1 = vc.index_consts([K1] * _H, "p")
+        c2 = vc.index_consts([K2] * _H, "q")
+        row = MR([(x, K1) for x in i1] + [(x, K2) for x in i2])
+        col = MR([d for h in range(_H) for d in ((c1[h], K1), (c2[h], K2))])
+        same = z3.And(*[i1[h] == c1[h] for h in range(_H)], *[i2[h] == c2[h] for h in range(_H)])
+        vc.ensure("permutation_sends_pairwise_units_to_first_operand_major_units", perm.elem([row, col]) == z3.If(same, z3.RealVal(1), z3.RealVal(0)))
+    obligation(f"C04.rule.multiply_kronecker_layers.arity{_H}" + ("" if _conc is None else f".units{_conc[0]}x{_conc[1]}"), "C04", [f"{SO}:multiply_kronecker_layers"])(_h)
